@@ -16,6 +16,9 @@ def main(tier, replay=None):
     for prog in ("rspawn", "lspawn"):
         for fam in ("ids", "cut", "multi", "split", "reuse"):
             vk_run(res, "c18spawn", src, rd, "0,0,0,0", 0, 1500, "%s-command-streams-%s" % (prog, fam), opts=["family=" + fam, "prog=" + prog] + th)
+    # one report per command also when the delivery program is quicker than the spawner: every interleaving of spawner and child within the preemption bound
+    for prog in ("rspawn", "lspawn"):
+        vk_run(res, "c18spawn", src, rd, "%d,0,0,0" % (2 if tier == "quick" else 3), 3, 1500, "%s-child-races-the-spawner" % prog, opts=["family=fate", "prog=" + prog])
     res.rule = ("qmail-clean: every request of the set {f,o,p,t,d,/,x}^5 x representative suffixes + near-miss keywords x every suffix over "
                 "{1,2,/,.,x,0xFF}^<=4 (thorough: the full product), lengths around the 7/100 limits, numbers around 2^64, unterminated final "
                 "request; each request is fed alone (the helper is quiescent before the next one), the oracle compares the paths passed to "
@@ -44,7 +47,7 @@ def main(tier, replay=None):
                  "delivery number, documented status letter; the same command sequences with one failing fork/pipe/open of the spawner itself: still one "
                  "report per command, a temporary one for the command that hit the failure, and the spawner exits at end of input; split: a first delivery program takes its time, "
                  "the second command arrives cut after every byte and the first delivery finishes between the two pieces: each report carries its own delivery number; "
-                 "reuse: two deliveries one after the other through the same number, every ordered pair of 9 child fates")
+                 "reuse: two deliveries one after the other through the same number, every ordered pair of 9 child fates; fate: one command whose delivery program ends in each of 9 ways, under every interleaving of spawner and child within the preemption bound (a child that is gone before the spawner has recorded it)")
     res.assumptions = ["a request is valid iff it is (foop|todo)/<decimal number < 2^64> NUL with total length 7..100"]
     res.require_nonzero("evaluations", "valid_requests", "rejected_requests", "unlink_failures_injected", "children_started", "reports_checked", "spawner_opens_checked", "reports_stray", "reports_garbage", "reports_oversized", "split_commands", "slot_reuses", "reports_in_two_pieces")
     lib_conformance(res, rd, src, ['num', 'io'], tier, asan=False)
